@@ -22,7 +22,7 @@ from scico.numpy import Array, BlockArray
 from scico.numpy.linalg import norm
 from scico.typing import BlockShape, DType, PRNGKey, Shape
 
-from ._common import Optimizer
+from ._common import Optimizer, _all_finite
 
 # mypy: disable-error-code=override
 
@@ -122,9 +122,9 @@ class ProximalADMMBase(Optimizer):
         a solver working variable.
         """
         return (
-            snp.all(snp.isfinite(self.x))
-            and snp.all(snp.isfinite(self.z))
-            and snp.all(snp.isfinite(self.u))
+            _all_finite(self.x)
+            and _all_finite(self.z)
+            and _all_finite(self.u)
         )
 
     def _objective_evaluatable(self):
